@@ -193,12 +193,20 @@ class AdwinDriver(Driver):
             d._check_epsilon = check_epsilon
         return d
 
+    def pre_update(self, det):
+        # the minimum-window guard is about the window *including* the new sample: remember the length before the update
+        self.__dict__.setdefault("_window_before", {})[id(det)] = det._window_size
+
     def fresh_input(self, i):
         return self.ctx.real(f"x{i}")
 
     def warm(self, det, since_after, total_after):
         p = self._params()
-        return total_after % p["new_sample_thresh"] == 0
+        scheduled = total_after % p["new_sample_thresh"] == 0
+        before = self.__dict__.get("_window_before", {}).get(id(det))
+        if before is None:
+            return scheduled
+        return land(scheduled, before + 1 > p["window_size_thresh"])
 
 
 class AdwinAccDriver(AdwinDriver):
